@@ -114,7 +114,7 @@ class FileResolver:
             ]
 
             # Collect gitignore specs for this directory (including ancestors)
-            gitignore_specs: list[pathspec.PathSpec] = []
+            gitignore_specs: list[tuple[Path, pathspec.PathSpec]] = []
             if self._config.respect_gitignore:
                 gitignore_specs = self._get_gitignore_chain(current, root)
 
@@ -125,7 +125,7 @@ class FileResolver:
                     continue
                 if self._exceeds_max_size(filepath):
                     continue
-                if any(spec.match_file(filename) for spec in gitignore_specs):
+                if self._is_gitignored(filepath, gitignore_specs):
                     continue
                 if tool_ignore and tool_ignore.match_file(filename):
                     continue
@@ -150,9 +150,9 @@ class FileResolver:
 
         if self._config.respect_gitignore:
             root = walk_root if walk_root is not None else current_dir
-            for spec in self._get_gitignore_chain(current_dir, root):
-                if spec.match_file(dir_with_slash):
-                    return True
+            chain = self._get_gitignore_chain(current_dir, root)
+            if self._is_gitignored(current_dir / dirname, chain, is_dir=True):
+                return True
 
         if tool_ignore and tool_ignore.match_file(dir_with_slash):
             return True
@@ -193,9 +193,43 @@ class FileResolver:
             self._gitignore_cache[directory] = load_gitignore(directory)
         return self._gitignore_cache[directory]
 
-    def _get_gitignore_chain(self, directory: Path, walk_root: Path) -> list[pathspec.PathSpec]:
-        """Collect all gitignore specs from walk_root down to directory (inclusive)."""
-        specs: list[pathspec.PathSpec] = []
+    @staticmethod
+    def _is_gitignored(
+        path: Path, chain: list[tuple[Path, pathspec.PathSpec]], is_dir: bool = False
+    ) -> bool:
+        """
+        Apply a chain of `(base_dir, spec)` gitignore files as git does: each file's
+        patterns are matched against the path relative to that file's directory, the
+        last matching pattern of a file decides, and the deepest file with an opinion wins.
+        """
+        resolved = path.resolve().parent / path.name
+        ignored = False
+        for base, spec in chain:
+            try:
+                rel = resolved.relative_to(base).as_posix()
+            except ValueError:
+                continue
+            if is_dir:
+                # A trailing `/**` matches everything inside a directory but not the directory
+                # itself, so for such patterns the directory is matched without its slash.
+                for pattern in reversed(spec.patterns):
+                    if pattern.include is None:
+                        continue
+                    inside_only = str(pattern.pattern).rstrip().endswith("/**")
+                    if pattern.match_file(rel if inside_only else rel + "/") is not None:
+                        ignored = pattern.include
+                        break
+            else:
+                result = spec.check_file(rel)
+                if result.include is not None:
+                    ignored = result.include
+        return ignored
+
+    def _get_gitignore_chain(
+        self, directory: Path, walk_root: Path
+    ) -> list[tuple[Path, pathspec.PathSpec]]:
+        """Collect `(dir, spec)` for all gitignore files from walk_root down to directory."""
+        specs: list[tuple[Path, pathspec.PathSpec]] = []
         resolved_root = walk_root.resolve()
         resolved_dir = directory.resolve()
         # Walk from root down to current directory
@@ -203,7 +237,7 @@ class FileResolver:
         while True:
             spec = self._get_gitignore(current)
             if spec is not None:
-                specs.append(spec)
+                specs.append((current, spec))
             if current == resolved_dir:
                 break
             try:
